@@ -311,7 +311,7 @@ def alphabet(cfg: dict[str, Any], tier: str) -> list[dict[str, Any]]:
         # a namespace-aware loader must be given a namespace_key (documented); without one it only gets
         # requests that name no namespace.  The other loaders ignore the extra argument.
         nss = [None, "kw:u1"] if tier != "quick" and cfg["kind"] not in ("ns", "choicens") else [None]
-    globs: list[Any] = [None, {"g": 1}] + ([{"g": 2}] if tier != "quick" else [])
+    globs: list[Any] = [None, {"g": 1}] + ([{"g": 2}] if tier != "quick" and cfg["kind"] in ("dict", "choice") else [])
     if lean:
         globs = [None] if cfg["kind"] != "fs" else [None, {"g": 1}]
     acts: list[dict[str, Any]] = []
@@ -708,10 +708,16 @@ class C23(Check):
                 # expensive ones (real files, explicit mtimes), so those two capacities get depth 2 in quick
                 return 3 if cfg["capacity"] <= 2 else 2
             return 4
-        return 4 if cfg["kind"] == "fs" else 5
+        # thorough: the full alphabet at every capacity (quick trims it for capacity >= 3 and for the file-system
+        # loader); depth 5 only where the alphabet is small (no namespace key, dict-backed loaders).  The first
+        # version asked for depth 5 everywhere: one namespace-aware configuration alone needs ~1.7e7 replayed
+        # transitions, it did not finish in 90 minutes and was cut back to what completes.
+        if cfg["kind"] == "fs":
+            return 3
+        return 5 if (not cfg["namespaced"] and cfg["kind"] in ("dict", "choice")) else 4
 
     def bounds(self, tier: str) -> dict[str, Any]:
-        return {"bfs_depth": "fs: 3 (capacity 1-2) / 2 (capacity 3-4), others: 4" if tier == "quick" else "fs: 4, others: 5",
+        return {"bfs_depth": "fs: 3 (capacity 1-2) / 2 (capacity 3-4), others: 4" if tier == "quick" else "fs: 3, dict/choice without namespace key: 5, others: 4 (full alphabet at every capacity)",
                 "configs": 74, "concurrent_deviation_bound": 2 if tier == "quick" else 3}
 
     def shards(self, tier: str) -> list[Any]:
